@@ -139,8 +139,8 @@ type Q struct {
 	MaxS   string   `json:"maxs,omitempty"`
 	Start  string   `json:"start,omitempty"` // RFC3339Nano, "" = open
 	End    string   `json:"end,omitempty"`
-	Bool           bool     `json:"bool,omitempty"`
-	IDs            []string `json:"ids,omitempty"`
+	Bool   bool     `json:"bool,omitempty"`
+	IDs    []string `json:"ids,omitempty"`
 
 	Kids      []*Q    `json:"kids,omitempty"` // conj / disj
 	DisjMin   int     `json:"dmin,omitempty"`
